@@ -39,6 +39,7 @@ from common import err_kind
 warnings.simplefilter("ignore")      # MemoryLeakWarning of a thub whose copy is never read (call refused)
 from props import c01_t1
 from props import c01_flavours as fl
+from props import c01_exc as xc
 
 ID = "C01"
 RULE = ("expr: exhaustive cross 35 dunders x operand kinds x length pairs x call route (direct dunder / operator "
@@ -48,6 +49,15 @@ RULE = ("expr: exhaustive cross 35 dunders x operand kinds x length pairs x call
         "(other raw, other in a Stream, self, both) x builder branch (binary|rbinary x iterable|scalar, unary) x which operand "
         "is empty / shortest / endless x one dunder of every operator class (thorough: three), primary flavours x all 35 dunders; "
         "random trees of depth <= 4 (quick) / 6 (thorough) whose leaves are drawn from the same flavours, a malformed stream; "
+        "exprE (c01_exc.py): element values on which the operators RAISE in the middle (division / modulo by zero incl. Fraction(0), 0.0, False; "
+        "0 ** negative; negative / float shift counts; None, str, complex elements; Boom elements on which every one of the 35 dunders, abs, call "
+        "and attribute access raise; a Boom scalar = every position raises) x every dunder of the pool x (scalar operand on the side the dunder "
+        "fixes | iterable operand raw / in a Stream | endless self | endless other | unary | map / abs / attribute / call) and random nested "
+        "trees of depth <= 4 (thorough 5) with append / Stream(a, b); each read three ways: next() in try/except, a for loop restarted after "
+        "each exception, a random script of next() / take(k) in try/except; bcastE: the math/dB/MIDI functions on scalar / list / tuple / deque / "
+        "generator / map / filter / Stream / thub inputs, by position and by keyword, with elements in the middle on which the function raises "
+        "(domain errors, None, str, negative factorial), invalid logarithm bases by position / keyword; meta: classes built with a user's "
+        "subclass of AbstractOperatorOverloaderMeta (subsets of the three builders x __operators__ / __without__ queries x names bound in the body); "
         "a case is non-trivial when the real expression delivers at least one item or the broadcast function "
         "is applied to at least one element; distinct = distinct JSON case")
 TRUSTED = [
@@ -60,6 +70,16 @@ TRUSTED = [
     "harness/props/c01_flavours.py: which python object delivers the elements of a leaf (itertools / builtin iterators, lazy_itertools "
     "wrappers); an endless operand is shown to the model as its first n + 2 elements for an observation of n next() calls "
     "(every next() of an operator expression asks each leaf at most once)",
+    "harness/props/c01_exc.py: the oracle table `bad` handed to the Lean model (entries exprE / bcastE) = the applications, among those the "
+    "model itself asks about (`queried`), on which python's operator.* / the undecorated library function raises on the real elements; "
+    "settled by rounds and re-checked for consistency in every comparison; the three readers (next loop, restarted for loop, next/take script)",
+    "harness/props/c01_exc.py stream_meth_kinds: ast recogniser that tells from lazy_stream.py whether Stream.__getattr__ / __call__ build "
+    "their result on a generator expression or on a map object (parameter `g` of the model's `meth` node; unknown shape = broken obligation)",
+    "independent oracle (c01_exc.scalar_function_checks, 538 calls) for the element functions lazy_math defines itself (log / ln / log10 / "
+    "log2 / log1p / factorial / dB10 / dB20 / sign incl. their error branches): python numbers are not modelled in Lean",
+    "CPython facts the exception model encodes (checked differentially on every run): a map object survives an exception of its function, "
+    "map(f, a, b) does not advance b when a raises, a generator is finished by any exception leaving its frame, itertools.chain passes "
+    "exceptions on, islice(it, k) makes exactly k calls",
 ]
 MANIFEST = {
     "text": "Lean 4 theorems (structural induction over expression trees of any depth, operands finite / empty / unequal / "
@@ -67,14 +87,20 @@ MANIFEST = {
             "the metaclass loop over the REGENERATED operator table, and the elementwise decorator; tied to /repo by "
             "translator T1 (table + insertion logic read from the source on every run, re-proved by `decide`) and a "
             "differential run in which the symbolic terms of the model/spec are evaluated with python's operator.* on the "
-            "real elements",
+            "real elements; element operations that raise are inside the model (Iter.stepE / drainE / takeE over an arbitrary oracle `bad`, "
+            "compositional outcome laws exc_map / exc_gen / exc_map2 / exc_chain / exc_take / exc_eval for all expression trees; "
+            "elementwiseE for the broadcast decorator) and inside the tie (exceptions in the middle, then continued reads); classes built by "
+            "any user of the metaclass (missing builders, operator queries) are modelled by installW",
     "note": "Trusted: Lean kernel (axioms propext, Classical.choice, Quot.sound as reported in the evidence), translator T1, the term "
-            "evaluator and generators of harness/props/c01.py, CPython's operator dispatch and itertools.  Element "
-            "semantics is deliberately not modelled (free term algebra): the property is about wiring.",
+            "evaluator and generators of harness/props/c01.py + c01_exc.py (oracle table = python's own verdict on the applications the model "
+            "asks about), CPython's operator dispatch and itertools.  Element "
+            "semantics is deliberately not modelled (free term algebra + an abstract `raises` oracle): the property is about wiring.  Known finding: "
+            "Stream.__getattr__/__call__ end at the first element exception (generator expressions).",
     "technique": "Lean 4 proof over an executable model + source-to-Lean table translator + symbolic differential correspondence",
 }
 ASSUMPTIONS = [
-    "element semantics (Python numbers) is not modelled: the theorems are over a free term algebra, i.e. about wiring",
+    "element semantics (Python numbers) is not modelled: the theorems are over a free term algebra, i.e. about wiring; WHICH applications raise "
+    "is an arbitrary parameter `bad : Term -> Bool` of the exception theorems (they hold for every such oracle)",
     "operands are Streams, non-Stream iterables or non-iterable scalars; classes registered with avoid_stream give NotImplemented",
     "Stream.__init__ is modelled for 1 and 2 arguments (n > 2 is the same fold)",
 ]
@@ -249,6 +275,8 @@ def dec_val(j):
             return j["T"]           # a text element
         if "Z" in j:
             return tuple(dec_val(x) for x in j["Z"])     # a tuple element (what zip / enumerate deliver)
+        if "B" in j:
+            return xc.Boom(j["B"])  # an element on which every operation raises this exception
         raise ValueError("unknown element encoding %r" % (j,))
     return j                        # int, bool, float, None
 
@@ -261,6 +289,8 @@ def canon(v):
         return "complex:nan"
     if isinstance(v, (list, tuple)):
         return "%s:[%s]" % (type(v).__name__, ",".join(canon(x) for x in v))
+    if type(v) is int and v.bit_length() > 4000:
+        return "int:huge:%d bits:%d" % (v.bit_length(), v % 1000003)      # (repr of such an int is refused by python 3.12)
     return "%s:%r" % (type(v).__name__, v)
 
 
@@ -348,6 +378,9 @@ def number(node, st=None, n=0):
     elif k == "bin":
         s = number(node["s"], st)[0]
         r = {"k": k, "d": node["d"], "s": s, "o": number(node["o"], st)[0]}
+    elif k == "meth" and node["l"] == "attr:__next__":
+        # `s.__next__` ("Streams are iterable, not iterators"): AttributeError, like any name that is no operator method
+        r = {"k": "un", "d": "__next__", "s": number(node["s"], st)[0]}
     elif k == "meth":
         r = {"k": k, "l": node["l"], "s": number(node["s"], st)[0]}
     elif k == "append":
@@ -585,7 +618,7 @@ def impl_optable(c):
     ops = []
     for op in OpMethod.get("all"):
         ops.append({"name": op.name, "symbol": op.symbol, "rev": bool(op.rev), "dname": op.dname,
-                    "arity": op.arity, "func": _opfunc_name(op.func)})
+                    "arity": op.arity, "func": _opfunc_name(op.func), "repr": repr(op)})
     # what is really bound in the class: every dunder-looking callable of Stream.__dict__ that the
     # metaclass templates produce (closure over `op_func`), with the operator function it closes over
     installed = []
@@ -649,6 +682,12 @@ def _impl_once(c):
             return impl_optable(c)
         if c["entry"] == "bcast":
             return impl_bcast(c)
+        if c["entry"] == "exprE":
+            return xc.impl_expr(c)
+        if c["entry"] == "bcastE":
+            return xc.impl_bcast(c)
+        if c["entry"] == "meta":
+            return xc.impl_meta(c)
         raise ValueError(c["entry"])
     except _Timeout:
         return {"err": "TIMEOUT"}
@@ -670,6 +709,10 @@ def request(c):
         return {"entry": "expr", "prog": number(c["prog"], n=take_n(c))[0], "n": take_n(c)}
     if c["entry"] == "bcast":
         return request_bcast(c)
+    if c["entry"] in ("exprE", "bcastE"):
+        return xc.request(c)
+    if c["entry"] == "meta":
+        return dict((k, c[k]) for k in ("entry", "ops", "without", "have", "ns"))
     return {"entry": c["entry"]}
 
 
@@ -816,6 +859,12 @@ def compare(c, io, drv):
         return compare_optable(c, io, drv)
     if c["entry"] == "bcast":
         return compare_bcast(c, io, drv)
+    if c["entry"] == "exprE":
+        return xc.compare_expr(c, io, drv)
+    if c["entry"] == "bcastE":
+        return xc.compare_bcast(c, io, drv)
+    if c["entry"] == "meta":
+        return xc.compare_meta(c, io, drv)
     return [("model", "unknown entry")]
 
 
@@ -824,6 +873,8 @@ def nontrivial(c, io):
         return bool(io.get("items"))
     if c["entry"] == "bcast":
         return bool(io.get("applied"))
+    if c["entry"] in ("exprE", "bcastE"):
+        return xc.nontrivial(c, io)
     return "err" not in io
 
 
@@ -858,7 +909,9 @@ def pyclass(node):
         c = node.get("ctor", "Stream")
         return c if c in SUBCLASS_CTORS else "Stream"
     if k == "append" or (k == "meth" and (node["l"] == "abs" or node["l"].startswith("map:"))):
-        return "ControlStream" if pyclass(node["s"]) == "ControlStream" else "Stream"
+        # map / append / abs return `self`: an instance of a Stream subclass stays one (python then tries ITS reflected
+        # method first, i.e. evaluates it as the first operand — visible as soon as element operations raise)
+        return pyclass(node["s"]) if pyclass(node["s"]) in SUBCLASS_CTORS else "Stream"
     if k in ("stream2", "un", "bin", "meth"):
         return "Stream"
     return None
@@ -1321,6 +1374,10 @@ def malformed_cases():
                         fam="sym", okind="-", bad="ctor-mix", finite=False))
     cs.append(expr_case({"k": "un", "d": "__neg__", "s": {"k": "stream2", "a": {"k": "scalar", "c": {"S": "c"}}, "b": leaf("tuple", sym_vals("a", 2))}},
                         fam="sym", okind="-", bad="ctor-mix", finite=False))
+    for lf in ("list", "gen"):
+        cs.append(expr_case({"k": "meth", "l": "attr:__next__", "s": stream_of(leaf(lf, sym_vals("a", 2)))}, fam="sym", okind="-", bad="next-attr"))
+    cs.append(expr_case({"k": "un", "d": "__neg__", "s": {"k": "meth", "l": "attr:__next__", "s": stream_of(leaf("list", [1, 2]))}},
+                        fam="int", okind="-", bad="next-attr"))
     # an operator method of something that is not a Stream
     cs.append(expr_case({"k": "meth", "l": "abs", "s": stream_of(leaf("list", sym_vals("a", 3)))}, fam="sym", okind="-"))
     return cs
@@ -1434,6 +1491,7 @@ def generate(rng, tier, scale=1):
         for d in UN_DUNDERS:
             cases.append(expr_case({"k": "un", "d": d, "s": stream_of(leaf("list", sym_vals("a", 2)))}, fam="sym", okind="-"))
     cases += generate_bcast(rng, tier, scale)
+    cases += xc.generate(rng, tier, scale)
     return cases
 
 
@@ -1509,9 +1567,22 @@ def tally(eng, c, io):
                 eng.count("length_relation", "self<other" if ls < lo else "self>other" if ls > lo else "equal" if ls else "both-empty")
     elif c["entry"] == "bcast":
         tally_bcast(eng, c, io)
+    elif c["entry"] in ("exprE", "bcastE"):
+        xc.tally(eng, c, io)
+    elif c["entry"] == "meta":
+        xc.tally_meta(eng, c, io)
 
 
 def shrink(c):
+    if c["entry"] == "meta":
+        for k in ("ops", "without", "ns", "have"):
+            if c[k]:
+                yield dict(c, **{k: c[k][:-1]})
+        return
+    if c["entry"] in ("exprE", "bcastE"):
+        for x in xc.shrink(c):
+            yield x
+        return
     if c["entry"] == "bcast":
         for x in shrink_bcast(c):
             yield x
@@ -1591,6 +1662,8 @@ def _shrink_node(nd):
 
 
 def neighbours(c):
+    if c["entry"] in ("exprE", "bcastE", "meta"):
+        return
     if c["entry"] == "bcast":
         for x in neighbours_bcast(c):
             yield x
@@ -1629,8 +1702,12 @@ def classify(c, io, drv):
         operands are in the replay.  Coarse on purpose: one broken builder shows as one signature. """
     if c["entry"] == "optable":
         return "optable"
+    if c["entry"] == "meta":
+        return "metaclass-user"
     if c["entry"] == "bcast":
         return classify_bcast(c, io, drv)
+    if c["entry"] in ("exprE", "bcastE"):
+        return xc.classify(c, io, drv)
     p = c["prog"]
     what = _op_class(p["d"]) if p["k"] in ("bin", "un") else p["k"] + (":" + p["l"].split(":")[0] if p["k"] == "meth" else "")
     osort = ""
@@ -1652,6 +1729,11 @@ def classify(c, io, drv):
 
 def regenerate(eng):
     return c01_t1.regenerate(common.REPO, common.LEAN)
+
+
+def extra_checks(eng):
+    for x in xc.extra_checks(eng):
+        yield x
 
 
 # ------------------------------------------------------------------------------------------------
